@@ -68,6 +68,7 @@ def key_of(t):
                 return ("el", a[2], i[2])
             if const_of(i) is not None:
                 return ("el", a[2], "#%d" % const_of(i))
+            return ("el", a[2], "?")            # list[computed position]: only list-wide facts apply to it
     return None
 
 
@@ -114,9 +115,32 @@ class IdxAnalysis:
                 ty = self.f.ltypes.get(n, "")
                 if "*" not in ty:
                     continue
+                if const_of(rhs) == 0:
+                    continue
                 c, fld = array_class(rhs)
+                if c is None:
+                    c, fld = self._alloc_class(rhs), n + "[] (local array)"
                 cand[n].add((c, fld))
         return {n: list(v)[0] for n, v in cand.items() if len(v) == 1 and list(v)[0][0] is not None}
+
+    ALLOCS = ("ILLutil_allocrus", "malloc", "calloc", "EGsMalloc", "EGmalloc")
+
+    def _alloc_class(self, rhs):
+        """dimension class of a scratch array: the value is the result of an allocator whose size expression names exactly one
+        dimension of the problem (imap = malloc (nstruct * sizeof (int)))"""
+        for n in walk(rhs):
+            if isinstance(n, list) and n and n[0] == "c" and (callee(n) or "") in self.ALLOCS:
+                dims = set()
+                for a in n[3]:
+                    for m in walk(a):
+                        c = dim_class(m) if isinstance(m, list) and m and m[0] == "m" else None
+                        if c:
+                            dims.add(c)
+                        if isinstance(m, list) and m and m[0] == "b" and m[1] in ("+", "-"):
+                            return None          # nrows + num: not a plain dimension
+                if len(dims) == 1:
+                    return list(dims)[0]
+        return None
 
     def arr_class(self, t):
         c, fld = array_class(t)
